@@ -130,3 +130,33 @@ func c07Oracle(g *gm) {
 	}
 	g.sweepRelations()
 }
+
+// C07, crash part: the process dies at every instrumented boundary inside
+// create, rename and delete (and the writes around them); after restart the
+// dataset in flight is either fully there or fully hidden, every other
+// dataset is unaffected (model equality), raw indexes are consistent.
+func TestVerif_C07_crash(t *testing.T) {
+	defer kit.S().Flush()
+	defer kit.CleanupScratch()
+	maxPlans := kit.EnvInt("VERIF_C07_MAXPLANS", 40)
+	rapid.Check(t, func(t *rapid.T) {
+		g := newModelGM(t, t, nil, kit.GenCfg{MaxRefs: 2})
+		g.maxBatch = 4
+		g.applyOp(Op{K: "create", Name: "a", Via: "dsm"})
+		g.applyOp(Op{K: "create", Name: "b", Via: "dsm"})
+		// shared ids and references between the datasets, then management ops
+		g.applyBatch(g.genBatchOp())
+		g.applyBatch(g.genBatchOp())
+		acts := g.mgmtActions(false, false)
+		// bias towards management
+		acts["delete2"] = acts["delete"]
+		acts["rename2"] = acts["rename"]
+		acts["create2"] = acts["create"]
+		t.Repeat(acts)
+		ops := append([]Op{}, g.hist...)
+		if !g.has("dataset-deleted", "rename", "re-create") {
+			t.Skip("no management op in history")
+		}
+		runCrashCase(t, ops, maxPlans, []string{"create.", "delete.", "rename."})
+	})
+}
